@@ -256,7 +256,7 @@ def monitor(case, obs):
       v.append((sig, msg))
 
   started = False
-  busy = False                 # a children notification has been handed to the server set and the worker has not gone idle since
+  busy = False                 # a watch callback has run and the worker has not gone idle since
   consumer = set()
   skipped = set()              # members whose read found nothing and whose absence no later notification has shown
   prev = {'pending': [], 'cw': 0, 'parked': None, 'tree': None}
@@ -279,9 +279,10 @@ def monitor(case, obs):
       return v
     if k == 'start' and 'exc' not in st:
       started = True
+    if k == 'start' or (k == 'deliver' and st.get('kind')):
+      busy = True                                # a callback ran: it may have handed work to the worker
     if k in ('start', 'deliver') and st['cw'] > prev['cw']:
-      busy = True                                # get_children succeeded: the function was called with st['tree']
-      skipped &= set(st['tree'] or [])
+      skipped &= set(st['tree'] or [])           # get_children succeeded: the function was called with st['tree']
     if k == 'deliver' and st.get('kind') == 'data' and st['tree'] is None:
       skipped.clear()
     for n, found in st['reads']:
@@ -303,7 +304,7 @@ def monitor(case, obs):
         if n not in consumer:
           flag('leave-without-join', 'step %d (%s): member %d reported leaving while the consumer does not hold it' % (i, k, n))
         consumer.discard(n)
-    # --- quiescent: nothing undelivered, worker idle with an empty queue -----------------------------
+    # --- quiescent: nothing undelivered and the worker has run to idle since the last callback --------
     if started and not st['pending'] and st['parked'] is None and not busy:
       checked += 1
       want = set(n for n in (st['tree'] or []) if n not in filtered)
@@ -335,6 +336,8 @@ def _settle_ops(s, limit=60):
     op = ['work'] if (s.wk is not None or s.queue) else ['deliver']
     ops.append(op)
     SH.step(s, op)
+  if ops and ops[-1] != ['work']:
+    ops.append(['work'])          # the monitor judges a state only after the worker has run since the last callback
   return ops
 
 
@@ -523,7 +526,7 @@ def _quiescent_points(case, obs):
   for op, st in zip(case['ops'], obs['steps']):
     if op[0] == 'start':
       started = True
-    if op[0] in ('start', 'deliver') and st['cw'] > prev_cw:
+    if op[0] == 'start' or (op[0] == 'deliver' and st.get('kind')):
       busy = True
     if op[0] == 'work' and st['parked'] is None:
       busy = False
